@@ -396,6 +396,66 @@ def merged(parts, shape, identity):
     return acc
 
 
+FILTER_IDS = {}
+
+
+def summary_token(st):
+    """one `Statistics` object in the line protocol of the driver op `statsmerge` (tables in dictionary order)"""
+    rl = st.read_length_statistics
+
+    def table(d):
+        return "|".join(f"{k}:{v}" for k, v in d) or "-"
+    filt = [(FILTER_IDS.setdefault(k, len(FILTER_IDS)), v) for k, v in st.filtered.items()]
+    pa = [list((d or {}).items()) for d in st.poly_a_trimmed_lengths]
+    nums = [st.n, st.total_bp[0], st.total_bp[1], rl.written_reads(), rl.written_bp()[0], rl.written_bp()[1],
+            st.quality_trimmed_bp[0] or 0, st.quality_trimmed_bp[1] or 0, st.with_adapters[0] or 0, st.with_adapters[1] or 0,
+            st.reverse_complemented or 0]
+    return ",".join(str(x) for x in nums) + ";" + table(filt) + ";" + table(pa[0]) + ";" + table(pa[1])
+
+
+def adapters_token(lst):
+    """a list of `AdapterStatistics` objects for the driver op `adaptermerge` (tables sorted: canonical form)"""
+    def errs(es):
+        if es is None:
+            return "-"
+        t = sorted((ln, e, c) for ln, d in es.errors.items() for e, c in d.items() if c)
+        return "|".join(f"{ln}.{e}:{c}" for ln, e, c in t) or "-"
+
+    def adj(es):
+        if es is None:
+            return "-"
+        t = sorted(((k.encode().hex() or "-"), v) for k, v in es.adjacent_bases.items() if v)
+        return "|".join(f"{k}:{v}" for k, v in t) or "-"
+    out = []
+    for a in lst:
+        f, b = a.end_statistics()
+        out.append(f"{a.reverse_complemented};{errs(f)};-;{errs(b)};{adj(b)}")
+    return "/".join(out) or "-"
+
+
+def merge_correspondence(ctx, parts):
+    """`a += b` of the real Statistics objects (and of their per-adapter statistics) against the model's `Summary.merge` /
+    `mergeAdapterStats`, for every ordered pair of the parts and for `Statistics() += a`"""
+    from cutadapt.report import Statistics
+    cs, ca = [], []
+    pairs = [(a, b) for a in parts for b in parts if a is not b] + [(Statistics(), parts[0]), (parts[0], Statistics())]
+    for a, b in pairs:
+        a2, b2 = copy.deepcopy(a), copy.deepcopy(b)
+        ta, tb = summary_token(a2), summary_token(b2)
+        aa = [adapters_token(a2.adapter_stats[i]) for i in (0, 1)]
+        ab = [adapters_token(b2.adapter_stats[i]) for i in (0, 1)]
+        try:
+            a2 += b2
+        except Exception as e:
+            ctx.count("stats-merge:exception:" + type(e).__name__)
+            continue
+        cs.append((f"statsmerge {ta} {tb}", summary_token(a2)))
+        for i in (0, 1):
+            ca.append((f"adaptermerge {aa[i]} {ab[i]}", adapters_token(a2.adapter_stats[i])))
+    correspond(ctx, "statsmerge", cs)
+    correspond(ctx, "adaptermerge", ca)
+
+
 def stats_merge(ctx, n_cases):
     rng = ctx.rng
     done = 0
@@ -415,6 +475,7 @@ def stats_merge(ctx, n_cases):
         if len(parts) < 3:
             continue
         done += 1
+        merge_correspondence(ctx, parts)
         ref = None
         variants = []
         for perm in itertools.permutations(range(3)):
